@@ -330,6 +330,18 @@ func genC19RT(x *Ctx) {
 			}
 			v := validVLA(r, count, m, r.Bool(), 0, rateMode, 0)
 			tagVLA(c, &v)
+			if r.Chance(1, 6) { // the receiver has already decoded these very bytes (once or twice)
+				c.Tag("recv=same-bytes")
+				var recv rtp.VLA
+				if b, err := v.Marshal(); err == nil {
+					try(func() { recv.Unmarshal(b) }) //nolint
+					if r.Bool() {
+						try(func() { recv.Unmarshal(b) }) //nolint
+					}
+				}
+				observeRT(c, v, recv)
+				return
+			}
 			observeRT(c, v, genReceiver(c))
 		})
 	}
